@@ -30,6 +30,7 @@ import collections
 import json
 import math
 import os
+import zlib
 import re
 import shutil
 import subprocess
@@ -362,6 +363,37 @@ def pred_roundtrip(case, stats):
     if res[1] != b'' or type(res[1]) is not bytes:
         stats.fail('roundtrip', 'roundtrip:remain-not-empty', case, observed={'wire': show(wire), 'remain': show(res[1])},
                    expected="b'' (the whole string is consumed)")
+    # the same round trip with a text encoding named by the caller (documented parameter of dump and parse): every text value and
+    # every dictionary key, at any depth, travels in that encoding
+    texts = []
+
+    def walk(x):
+        if isinstance(x, str):
+            texts.append(x)
+        elif isinstance(x, (list, tuple)):
+            for y in x:
+                walk(y)
+        elif isinstance(x, dict):
+            for k, y in x.items():
+                walk(k)
+                walk(y)
+    walk(v)
+    if texts:
+        encs = ['utf-16-le', 'utf-32-be'] + (['latin-1'] if all(ord(ch) < 256 for t in texts for ch in t) else [])
+        enc = encs[zlib.crc32(wire) % len(encs)]
+        try:
+            back = tnetstrings.parse(tnetstrings.dump(v, encoding=enc), encoding=enc)
+        except (UnicodeError, ValueError, TypeError, LookupError) as e:
+            # every text of this value is encodable in enc (chosen so): a codec error means some part travelled in another encoding
+            stats.fail('roundtrip', 'roundtrip:encoding-parameter:exc:' + type(e).__name__, case, observed={'encoding': enc, 'exc': show(e)},
+                       expected={'value': show(v)})
+            back = None
+        if back is not None:
+            d = same(v, back[0])
+            if d or back[1] != b'':
+                stats.fail('roundtrip', 'roundtrip:encoding-parameter:' + (d or 'remain-not-empty'), case,
+                           observed={'encoding': enc, 'parsed': show(back[0])}, expected={'value': show(v)})
+        stats.count('rt:encoding:' + enc)
     if tail:
         res2 = tnetstrings.parse(wire + tail)
         d = same(v, res2[0])
@@ -451,12 +483,15 @@ def run_machine(wire, chunks, bounds, frames, case, stats, clause):
     def fail(sig, observed, expected):
         stats.fail(clause, '%s:%s' % (clause, sig), case, observed=observed, expected=expected)
 
+    # the machine is run under a data path of the caller's choosing (as the repository's own test does with path='tnet')
+    PATH = [None, None, 'box', 'a.b'][zlib.crc32(wire) % 4]
+    KEY = (PATH + '.' if PATH else '') + 'tnet.type.input'
     with tnet.tnet_machine('tnet_c20') as engine:
         for k, (v, supported, end) in enumerate(frames):
             data = cpppo.dotdict()
             steps, exc, eof = 0, None, False
             try:
-                for mch, sta in engine.run(source=source, data=data):
+                for mch, sta in engine.run(source=source, data=data, path=PATH):
                     steps += 1
                     if steps > bound:
                         raise _NoTermination()
@@ -477,10 +512,10 @@ def run_machine(wire, chunks, bounds, frames, case, stats, clause):
             sent = source.sent
             if not supported:
                 # tag listed in TYPES but not implemented: must fail cleanly, or (if ever implemented) be right
-                if exc is None and engine.terminal and 'tnet.type.input' in data:
-                    d = None if v is _Unknown else same(v, data['tnet.type.input'])
+                if exc is None and engine.terminal and KEY in data:
+                    d = None if v is _Unknown else same(v, data[KEY])
                     if d:
-                        fail('unimplemented-tag-delivers-wrong-value', {'message': k, 'got': show(data['tnet.type.input'])},
+                        fail('unimplemented-tag-delivers-wrong-value', {'message': k, 'got': show(data[KEY])},
                              {'value': show(v), 'or': 'an exception'})
                     elif sent != end:
                         fail('sent-not-at-message-end', {'message': k, 'sent': sent}, {'sent': end})
@@ -498,11 +533,11 @@ def run_machine(wire, chunks, bounds, frames, case, stats, clause):
                 fail('machine-' + exc_sig(exc), {'message': k, 'exc': show(exc), 'sent': sent},
                      {'value': show(v), 'sent': end})
                 return
-            if not engine.terminal or 'tnet.type.input' not in data:
+            if not engine.terminal or KEY not in data:
                 fail('machine-not-terminal' if not engine.terminal else 'machine-terminal-without-payload', {'message': k, 'terminal': bool(engine.terminal), 'eof': eof, 'sent': sent,
                                               'fed': fed}, {'terminal': True, 'value': show(v), 'sent': end})
                 return
-            got = data['tnet.type.input']
+            got = data[KEY]
             d = same(v, got)
             if d:
                 fail('machine-' + d, {'message': k, 'got': show(got)}, {'value': show(v)})
@@ -765,6 +800,86 @@ def pred_sessions(case, stats):
         stats.fail('sessions', sig, case, observed=obs, expected={'value': exp})
 
 
+# ------------------------------------------------------------------------------------------------
+# clause: paused -- tnet_from with a timeout / latency configured, the sender pausing longer than that inside and between messages
+
+
+def pred_paused(case, stats):
+    """case = {'msgs', 'mode', 'cuts', 'timeout': seconds|None, 'latency': seconds|None}: a real socket pair; a feeder thread sends
+    the chunks with pauses longer than the configured timeout/latency, then closes.  Whatever None results (timeouts) the generator
+    yields, the messages it yields are exactly the messages sent, in order."""
+    import socket
+    import threading
+    import time
+    cpppo, tnet, tnetstrings = _impl()
+    values = [dec(n) for n in case['msgs']]
+    wire = b''.join(tnetstrings.dump(v) for v in values)
+    chunks, _ = make_chunks(wire, case['mode'], case.get('cuts', []))
+    chunks = [c for c in chunks if c][:4] or [wire]
+    if b''.join(chunks) != wire:
+        chunks = chunks[:3] + [wire[len(b''.join(chunks[:3])):]]
+    wait = 3.0 * max(case.get('timeout') or 0, case.get('latency') or 0, 0.02)
+    a, b = socket.socketpair()
+    stats.case(case, nontrivial=len(chunks) > 1, classes=['paused:chunks:%d' % len(chunks), 'paused:timeout:%r' % case.get('timeout'),
+                                                          'paused:latency:%r' % case.get('latency')])
+
+    def feed():
+        try:
+            for i, c in enumerate(chunks):
+                if i:
+                    time.sleep(wait)
+                a.sendall(c)
+            time.sleep(wait)
+        finally:
+            a.close()
+
+    th = threading.Thread(target=feed, daemon=True)
+    th.start()
+    got, nones, err = [], 0, None
+    gen = tnet.tnet_from(b, ('c20p', 0), timeout=case.get('timeout'), latency=case.get('latency'))
+    try:
+        t0 = time.time()
+        for v in gen:
+            if v is None:
+                nones += 1
+                if time.time() - t0 > 60:
+                    raise common.HarnessError('paused clause: no end of stream within 60 s')
+                continue
+            got.append(v)
+            if len(got) >= len(values):
+                break
+    except common.HarnessError:
+        raise
+    except Exception as e:
+        err = e
+    finally:
+        gen.close()
+        th.join(10)
+        b.close()
+    stats.count('paused:timeouts-yielded', nones)
+    if err is not None:
+        stats.fail('paused', 'paused:' + exc_sig(err), case, observed={'exc': show(err), 'messages_delivered': len(got)},
+                   expected='every message delivered although the sender paused longer than the timeout / latency')
+        return
+    if len(got) != len(values):
+        stats.fail('paused', 'paused:message-not-delivered', case, observed={'delivered': len(got)}, expected={'messages': len(values)})
+        return
+    for k, (v, g) in enumerate(zip(values, got)):
+        d = same(v, g)
+        if d:
+            stats.fail('paused', 'paused:' + d, case, observed={'message': k, 'got': show(g)}, expected={'value': show(v)})
+            return
+
+
+def paused_cases():
+    # (no null messages: tnet_from documents that a 0:~ message is yielded as None, which a timeout is too)
+    supported = st.one_of(st_scalar_nodes(True), st_scalar_nodes(True), st_value_nodes(6).map(lambda n: {'yd': n})).filter(
+        lambda n: dec(n) is not None)
+    return st.builds(lambda m, c, t: {'msgs': m, 'mode': c[0], 'cuts': c[1], 'timeout': t[0], 'latency': t[1]},
+                     st.lists(supported, min_size=1, max_size=3), st_chunking(),
+                     st.sampled_from([(0.03, None), (None, 0.03), (0.05, 0.02), (None, None)]))
+
+
 def sessions_cases():
     supported = st.one_of(st_scalar_nodes(True), st_scalar_nodes(True), st_value_nodes(6).map(lambda n: {'yd': n}))
     one = st.builds(lambda m, t, k, c: {'msgs': m, 'tail': t, 'take': k, 'mode': c[0], 'cuts': c[1]},
@@ -772,7 +887,7 @@ def sessions_cases():
     return st.builds(lambda l: {'sessions': l}, st.lists(one, min_size=2, max_size=4))
 
 
-CLAUSES = {'roundtrip': pred_roundtrip, 'stream': pred_stream, 'raw': pred_raw, 'sessions': pred_sessions}
+CLAUSES = {'roundtrip': pred_roundtrip, 'stream': pred_stream, 'raw': pred_raw, 'sessions': pred_sessions, 'paused': pred_paused}
 
 # ------------------------------------------------------------------------------------------------
 # generators
@@ -1030,6 +1145,7 @@ def shard_random(job):
     common.hyp_run(s, stream_cases(stream_bytes), pred_stream, n_st, sd + 1, 'stream', PID)
     common.hyp_run(s, raw_cases(), pred_raw, n_raw, sd + 2, 'raw', PID)
     common.hyp_run(s, sessions_cases(), pred_sessions, max(10, n_st // 4), sd + 3, 'sessions', PID)
+    common.hyp_run(s, paused_cases(), pred_paused, 4 if n_st < 1000 else 12, sd + 4, 'paused', PID)
     return s
 
 
